@@ -114,13 +114,22 @@ def _refined(al, r):
     return out
 
 
-def object_api(ctx, n, periods, xi, dt, mdr):
+def object_api(ctx, n, periods, xi, dt, mdr, history=False):
     lib = ctx.lib
     a = ctx.arr('a', n, -100.0, 100.0)
     al = list(a)
     parr = ctx.np.array([float(p) for p in periods])
     asig = lib.AccSignal(a, dt, response_times=parr)
-    asig.gen_response_spectrum(xi=xi, min_dt_ratio=mdr)
+    if history:
+        # spectra were already generated (and read) on this object with a coarser step rule and another damping; the
+        # call under test then names only what it wants changed (xi must be the object's default 0.05 here)
+        asig.gen_response_spectrum(xi=0.3, min_dt_ratio=1)
+        _ = asig.s_d
+        asig.gen_response_spectrum(min_dt_ratio=1)
+        _ = asig.s_a
+        asig.gen_response_spectrum(min_dt_ratio=mdr)
+    else:
+        asig.gen_response_spectrum(xi=xi, min_dt_ratio=mdr)
     tmin = [float(p) for p in periods if float(p) != 0][0] if float(periods[0]) == 0 else float(periods[0])
     target = max(tmin / 20, dt / mdr)
     if target < dt:
@@ -204,6 +213,10 @@ def obligations(tier, seed):
         for dt, pl in ((0.01, [0.1, 0.5]), (0.01, [0.0, 0.04, 0.3]), (0.1, [0.5, 2.0]), (0.1, [0.0, 1.2]), (0.01, [1.0, 3.0]),
                        (0.01, [0.15, 0.5]), (0.02, [0.17, 1.0]), (0.01, [0.0, 0.12]), (0.01, [0.0555, 0.2])):
             yield Ob('object_api', {'n': 3 if q else 4, 'periods': pl, 'xi': 0.05, 'dt': dt, 'mdr': mdr}, query_ms=120000,
+                     timeout_s=1200)
+    for mdr in (2, 4):
+        for dt, pl in ((0.01, [0.1, 0.5]), (0.1, [0.0, 1.2]), (0.01, [0.15, 0.5])):
+            yield Ob('object_api', {'n': 3, 'periods': pl, 'xi': 0.05, 'dt': dt, 'mdr': mdr, 'history': True}, query_ms=120000,
                      timeout_s=1200)
     for dt, pl in ((0.01, [0.0, 0.1, 1.0]), (0.1, [0.3, 2.0])):
         for xi in (0, 0.05, 0.5):
